@@ -276,9 +276,8 @@ class C20(Check):
         import random as _random
         from edgegraph.builder import randgraph as rgmod
         out, n = [], 0
-        for count, conn in ((1001, 0.002), (1500, 0.001), (2049, 0.0005), (4300, 0.0003)):
+        for count, conn, seed in ((1001, 0.002, 1078), (1500, 0.001, 1577), (2049, 0.0005, 2126), (4300, None, 11), (4600, None, 12), (4300, 0.0003, 4377)):
             for c in (("D",) if count > 4000 else ("D", "UU")):
-                seed = 77 + count
                 _random.seed(seed)
                 try:
                     u = rgmod.randgraph(count, LCLS[c], conn, True)
